@@ -34,6 +34,7 @@ type c14Case struct {
 	// (a depth or node limit the search will not reach before the clock does).
 	Extra      string `json:"extra,omitempty"`
 	ExtraFirst bool   `json:"extra_first,omitempty"`
+	NumFmt     int    `json:"num_fmt,omitempty"` // 0 plain, 1 zero padded, 2 explicit plus sign: all decimal
 	RunPolls   int    `json:"run_polls,omitempty"`
 	FEN        string `json:"fen,omitempty"`
 }
@@ -45,16 +46,27 @@ func (c c14Case) goLine() string {
 		sb.WriteString(" ponder")
 	}
 	if c.MoveTime > 0 {
-		fmt.Fprintf(&sb, " movetime %d", c.MoveTime)
+		if c.NumFmt == 1 {
+			fmt.Fprintf(&sb, " movetime %04d", c.MoveTime)
+		} else {
+			fmt.Fprintf(&sb, " movetime %d", c.MoveTime)
+		}
 	}
 	if c.MoveTime == 0 || c.WithClk {
 		w, b, wi, bi := c.Own, c.Opp, c.OwnInc, c.OppInc
 		if !c.White {
 			w, b, wi, bi = c.Opp, c.Own, c.OppInc, c.OwnInc
 		}
-		fmt.Fprintf(&sb, " wtime %d btime %d", w, b)
+		f := "%d"
+		switch c.NumFmt {
+		case 1:
+			f = "%05d" // zero padded
+		case 2:
+			f = "%+d" // explicit sign
+		}
+		fmt.Fprintf(&sb, " wtime "+f+" btime "+f, w, b)
 		if c.HasInc {
-			fmt.Fprintf(&sb, " winc %d binc %d", wi, bi)
+			fmt.Fprintf(&sb, " winc "+f+" binc "+f, wi, bi)
 		}
 	}
 	if c.Extra != "" {
@@ -154,6 +166,9 @@ func genC14Cases(rng *rand.Rand, n int, boundary []int64) []c14Case {
 				base.PonderOff = true
 				base.HitAfter = 1 + rng.Int64N(max(base.Own, base.MoveTime)*1000/2+1)
 			}
+		}
+		if rng.IntN(8) == 0 {
+			base.NumFmt = 1 + rng.IntN(2)
 		}
 		if rng.IntN(5) == 0 {
 			base.Extra = pick(rng, []string{"depth 64", "depth 60", "nodes 2000000000", "depth 63 nodes 1000000000"})
